@@ -1313,6 +1313,13 @@ int32_t jls_core_repair_fsr(struct jls_core_s * self, uint16_t signal_id) {
                 offset = r->offsets[r->header.entry_count - 1];
                 lvl->index->header.entry_count = 0;
                 lvl->summary->header.entry_count = 0;
+                if (level > 0) {
+                    // continue with the buffers of the level we descended to
+                    if (NULL == signal_info->track_fsr->level[level]) {
+                        ROE(jls_core_fsr_summary_level_alloc(signal_info->track_fsr, (uint8_t) level));
+                    }
+                    lvl = signal_info->track_fsr->level[level];
+                }
                 if (0 != jls_raw_chunk_seek(self->raw, offset)) {
                     JLS_LOGE("Could not seek to lower-level index.  Cannot repair.");
                     break;
